@@ -74,67 +74,9 @@ def check_tables(ctx):
 
 def check_shapes(ctx):
     repo = ctx.repo
-    enc = repo.method("ItemNumber", "encode", inherited=False)
-    dec = repo.method("ItemNumber", "decode", inherited=False)
-    ctx.touch(enc)
-    ctx.touch(dec)
-    hdr = [c for c in calls_in(enc.node) if call_name(c) == "self.encode_item_header"]
-    ok = len(hdr) == 1 and norm(hdr[0].args[0]) in ("len(self._value) * self._bytes", "self._bytes * len(self._value)")
-    ctx.ob("C14.P1", enc.qualname, ok, "numeric header length = count * width" if ok else f"numeric header length is `{norm(hdr[0].args[0]) if hdr else None}`", key="header-length", where=enc.where)
-    packs = [c for c in calls_in(enc.node) if call_name(c) == "struct.pack"]
-    ok = len(packs) == 1 and norm(packs[0].args[0]) == "f'>{self._struct_code}'"
-    ctx.ob("C14.P1", enc.qualname, ok, "elements are packed big-endian with the class's struct code" if ok else f"elements are packed with `{norm(packs[0].args[0]) if packs else None}`", key="pack-format", where=enc.where)
-    ok = False
-    for st in rules.func_stmts(enc.node):
-        if isinstance(st, ast.For) and packs:
-            val = rules.expand(enc.node, packs[0].args[1])
-            if norm(st.iter) == "enumerate(self._value)" and isinstance(st.target, ast.Tuple):
-                ok = val == f"self._value[{st.target.elts[0].id}]"
-            elif norm(st.iter) == "self._value" and isinstance(st.target, ast.Name):
-                ok = val == st.target.id
-    ctx.ob("C14.P1", enc.qualname, ok, "every element is packed once, in order" if ok else "elements are not packed one by one in value order", key="order", where=enc.where)
-    unp = [c for c in calls_in(dec.node) if call_name(c) == "struct.unpack"]
-    ok = len(unp) == 1 and norm(unp[0].args[0]) == "f'>{cls._struct_code}'"
-    ctx.ob("C14.P1", dec.qualname, ok, "elements are unpacked big-endian with the same struct code" if ok else f"elements are unpacked with `{norm(unp[0].args[0]) if unp else None}`", key="unpack-format", where=dec.where)
-    fors = [s for s in rules.func_stmts(dec.node) if isinstance(s, ast.For)]
-    gets = [c for c in calls_in(dec.node) if call_name(c) == "data.get"]
-    ok = len(fors) == 1 and norm(fors[0].iter) == "range(length // cls._bytes)" and len(gets) == 1 and norm(gets[0].args[0]) == "cls._bytes"
-    ctx.ob("C14.P1", dec.qualname, ok, "decode takes length // width elements of `width` bytes each" if ok else "numeric decode does not read length // _bytes chunks of _bytes bytes", key="chunks", where=dec.where)
-    # boolean
-    enc = repo.method("ItemBOOLEAN", "encode", inherited=False)
-    cfg = cfg_of(enc.node)
-    adds = [n for n in cfg.real_nodes() if isinstance(n.ast, ast.AugAssign) and norm(n.ast.target) == "result" and isinstance(n.ast.value, ast.Constant)]
-    vals = {}
-    for a in adds:
-        for t, v in cfg.dominating_conditions(a):
-            if isinstance(t, ast.Name):
-                vals[v] = a.ast.value.value
-    hdr = [c for c in calls_in(enc.node) if call_name(c) == "self.encode_item_header"]
-    ok = vals == {True: b"\x01", False: b"\x00"} and len(hdr) == 1 and norm(hdr[0].args[0]) == "len(self._value)"
-    ctx.ob("C14.P1", enc.qualname, ok, "booleans are one byte each: 0x01 / 0x00, header length = count" if ok else "boolean items are not encoded as one 0x01/0x00 byte per element", where=enc.where)
-    dec = repo.method("ItemBOOLEAN", "decode", inherited=False)
-    comps = [n for n in walk_no_nested(dec.node) if isinstance(n, ast.ListComp)]
-    ok = len(comps) == 1 and norm(comps[0].elt) in ("char > 0", "char != 0", "bool(char)") and norm(comps[0].generators[0].iter) == "data.get(length)"
-    ctx.ob("C14.P1", dec.qualname, ok, "every non-zero byte decodes to True; exactly `length` bytes are consumed" if ok else "boolean decode is not [byte != 0 for byte in data.get(length)]", where=dec.where)
-    # binary / text
-    for cname, payload in (("ItemB", "self._value"), ("ItemStr", "self._value.encode(self._encoding)")):
-        enc = repo.method(cname, "encode", inherited=False)
-        hdr = [c for c in calls_in(enc.node) if call_name(c) == "self.encode_item_header"]
-        ok = len(hdr) == 1 and "len(self._value)" in norm(hdr[0].args[0]) and any(isinstance(s, ast.AugAssign) and norm(s.value) == payload for s in rules.func_stmts(enc.node))
-        ctx.ob("C14.P1", enc.qualname, ok, f"{cname}: header(len(value)) followed by the payload" if ok else f"{cname}.encode is not header(len(value)) + payload", where=enc.where)
-        dec = repo.method(cname, "decode", inherited=False)
-        gets = [c for c in calls_in(dec.node) if call_name(c) == "data.get"]
-        ok = len(gets) == 1 and norm(gets[0].args[0]) == "length"
-        ctx.ob("C14.P1", dec.qualname, ok, f"{cname}: decode takes exactly `length` bytes" if ok else f"{cname}.decode does not take data.get(length)", where=dec.where)
-    enc = repo.method("ItemL", "encode", inherited=False)
-    hdr = [c for c in calls_in(enc.node) if call_name(c) == "self.encode_item_header"]
-    fors = [s for s in rules.func_stmts(enc.node) if isinstance(s, ast.For)]
-    ok = len(hdr) == 1 and norm(hdr[0].args[0]) == "len(self._value)" and len(fors) == 1 and norm(fors[0].iter) == "self._value" and [norm(b) for b in fors[0].body] == [f"result += {fors[0].target.id}.encode()"]
-    ctx.ob("C14.P1", enc.qualname, ok, "lists: header carries the element count, children encoded in order" if ok else "ItemL.encode is not header(count) + children in order", where=enc.where)
-    dec = repo.method("ItemL", "decode", inherited=False)
-    comps = [n for n in walk_no_nested(dec.node) if isinstance(n, ast.ListComp)]
-    ok = len(comps) == 1 and norm(comps[0].elt) == "Item.decode(data)" and norm(comps[0].generators[0].iter) == "range(length)"
-    ctx.ob("C14.P1", dec.qualname, ok, "lists: exactly `length` children are decoded in order from the shared cursor" if ok else "ItemL.decode is not [Item.decode(data) for _ in range(length)]", where=dec.where)
+    # the encode/decode shapes of the item classes are compared with their reviewed reference models (sa.refmodels, rule
+    # C14.P1 in sa/reference/models/index.json): big-endian packing with the class's struct code, one byte per boolean,
+    # header(len) + payload, children in order from the shared cursor - independent of how the loops are spelled
     pd = repo.cls("PacketData")
     g = pd.methods["get"]
     _codec.agree(ctx, "C14.P1", g, REF_ITEM["get"], {"returns": "PacketData.get returns the next n bytes", "stores": "and advances by n"}, key_prefix="get ")
